@@ -17,10 +17,13 @@ def _nuc_class(o, nucRadius):
     return ite(am - 1 < 0, am - 1 + bins, am - 1), am
 
 
-@REG.contract('getdXdtEuler', [T + 'getdXdtEuler'])
+@REG.contract('getdXdtEuler', [T + 'getdXdtEuler'], configs=[dict(name=''), dict(name='after-an-earlier-evaluation', prev=True)])
 def c_getdXdt(ctx, it, cfg):
     o, w = pbm_obj(ctx, it)
     bins = o.bins
+    if cfg.get('prev'):
+        # the rate is evaluated several times per step (RK4 stages, step correction): whatever an earlier evaluation left in the flux buffer must not matter
+        o.fields['_netFlux'] = array(ctx, 'netFlux_left_by_an_earlier_call', (bins + 1,))
     flux = array(ctx, 'flux', (bins + 1,))
     psd = array(ctx, 'psd', (bins,), fact=lambda v, i: v >= 0)
     nucRate = real(ctx, 'nucRate')
